@@ -43,11 +43,16 @@ func ruleR16_3(w *World, r *Report) {
 	var steps []step
 	for _, c := range callsIn(proc) {
 		f := staticCallee(c)
+		if f != nil && isMutatingRepoMethod(f) {
+			// a repository write made visible by a new helper: a commit step of its own
+			steps = append(steps, step{c: c, f: f, mutating: f, pred: map[*ssa.Function]*ssa.Function{f: nil}})
+			continue
+		}
 		if f == nil || f.Pkg == nil || f.Pkg.Pkg.Path() != pService {
 			continue
 		}
-		if _, isDefer := c.(*ssa.Defer); isDefer || oldFuncName(f) == "finalize" {
-			continue
+		if _, isDefer := c.(*ssa.Defer); isDefer || oldFuncName(f) == "finalize" || flattenable[f] {
+			continue // the deferred exit function; a new helper is represented by the steps inside it
 		}
 		st := step{c: c, f: f, pred: v.reach([]*ssa.Function{f}, nil)}
 		var names []string
@@ -280,7 +285,8 @@ func ruleR17_3(w *World, r *Report) {
 	} else {
 		for _, c := range callsNamed(fn, "newPushPullHandler") {
 			d := deepOfDepth(fn, 1)
-			paths, ok := d.paths(dins{d.root, c.(ssa.Instruction)}, colAbs)
+			dc := d.find(c.(ssa.Instruction))
+			paths, ok := d.paths(dc, colAbs)
 			good := ok && (allLitPathsHaveLin(paths, "+CLIENTCOL-COL == 0") || allLitPathsHaveLin(paths, "-CLIENTCOL+COL == 0"))
 			// and the client exists
 			good = good && allLitPathsContain(paths, "#0 != nil")
@@ -294,7 +300,7 @@ func ruleR17_3(w *World, r *Report) {
 				good = good && found
 			}
 			a := c.Common().Args
-			good = good && strings.Contains(canonName(a[2]), "GetClient(") && strings.Contains(canonName(a[3]), "getCollectionDocWithRPCError(")
+			good = good && strings.Contains(d.name(dc.n, a[2]), "GetClient(") && strings.Contains(d.name(dc.n, a[3]), "getCollectionDocWithRPCError(")
 			r.Check(good, "ProcessPushPull/client bound to collection", u.Pos(c.Pos()), "handlers only for a registered client of this collection", fmt.Sprintf("a handler is created under %v; expected client found and client.CollectionNum == collection.Num, with that client and collection handed to the handler", paths))
 		}
 	}
@@ -303,7 +309,7 @@ func ruleR17_3(w *World, r *Report) {
 	} else {
 		for _, c := range callsNamed(fn, "UpdateClient") {
 			d := deepOfDepth(fn, 1)
-			paths, _ := d.paths(dins{d.root, c.(ssa.Instruction)}, rewriter(`^.*GetClient\(.*#0\.CollectionNum$`, "DBCOL", `^.*\.CollectionNum$`, "REQCOL"))
+			paths, _ := d.paths(d.find(c.(ssa.Instruction)), rewriter(`^.*GetClient\(.*#0\.CollectionNum$`, "DBCOL", `^.*\.CollectionNum$`, "REQCOL"))
 			good := len(paths) > 0
 			for _, p := range paths {
 				okp := has(p.lins, "+DBCOL-REQCOL == 0") || has(p.lins, "-DBCOL+REQCOL == 0")
